@@ -63,6 +63,10 @@ func (k msgServer) depositForBurn(
 		return 0, errors.Wrapf(types.ErrInvalidAddress, "invalid from address (%s)", err)
 	}
 
+	if amount.IsNil() {
+		return 0, errors.Wrap(types.ErrDepositForBurn, "amount must be positive")
+	}
+
 	if !amount.IsPositive() {
 		return 0, errors.Wrap(types.ErrDepositForBurn, "amount must be positive")
 	}
